@@ -14,7 +14,9 @@
    B. files and directories (library logic over the kernel model of FsModel part K, which is trusted)
    files return exactly the bytes written across              files_return_written_bytes (any history of write / seek /
      write/append/seek/readAll                                read / readAll / size on a read-write handle refines the byte
-                                                              buffer), open_existing_for_read_write, open_fresh_for_read_write
+                                                              buffer), handles_of_every_mode_return_written_bytes (read-only /
+                                                              write-only too), open_existing_in_any_mode,
+                                                              open_existing_for_read_write, open_fresh_for_read_write
                                                               (start of the history; append = cursor at the end),
                                                               written_bytes_are_read_back, write_changes_nothing_else
      ... copy / rename                                        copy_carries_the_bytes (exact state afterwards, for every outcome
@@ -33,12 +35,11 @@
    Not covered by a theorem (correspondence and the text judge of checks/C19.py only): paths through
    '.', '..' or symbolic links for unlink and for create_succeeds (those theorems are for texts of
    proper names through real directories; exists / rename / copy / open theorems and the other create
-   theorems hold for every path text); a second handle on the same file; write-only / read-only
-   handles; File::unlink, createSymbolicLink (single system calls).
+   theorems hold for every path text); a second handle on the same file; File::unlink, createSymbolicLink (single system calls).
 *)
 From Coq Require Import ZArith List Bool.
 From Path Require Import PathSpec PathModel PathProofs RelProofs.
-From Path Require Import FsSpec FsModel FsTree FsWalk FsFile FsDir FsCreate FsMkdirs FsMove FsCopy FsWf.
+From Path Require Import FsSpec FsModel FsTree FsWalk FsFile FsHandle FsDir FsCreate FsMkdirs FsMove FsCopy FsWf.
 Import ListNotations.
 Local Open Scope Z_scope.
 
@@ -166,6 +167,31 @@ Theorem open_fresh_for_read_write : forall st h path fa d nm es,
               root st' = upd (root st) (d ++ [nm]) (Some (NFile [])) /\ cwd st' = cwd st.
 Proof. exact open_rw_fresh. Qed.
 Print Assumptions open_fresh_for_read_write.
+
+(* the same for a handle of any mode (read-only, write-only, read-write): what the mode does not
+   allow answers failure and changes nothing (FsSpec.abuf_step) *)
+Theorem handles_of_every_mode_return_written_bytes : forall os st h rd wr b,
+  file_handle st h rd wr b ->
+  exists st', h_run st h os = (st', snd (abuf_run rd wr b os)) /\
+              file_handle st' h rd wr (fst (abuf_run rd wr b os)) /\ frame st st' h.
+Proof. exact handle_run_refines. Qed.
+Print Assumptions handles_of_every_mode_return_written_bytes.
+
+(* File::open on an existing regular file, for every flag combination: readable unless write-only,
+   writable iff writeFlag; write-only without append / open flag empties the file, every other mode
+   leaves the bytes; appendFlag puts the cursor at the end *)
+Theorem open_existing_in_any_mode : forall st h path fr fw fa fo d nm c,
+  hfind (handles st) h = None ->
+  resolve st true path = WAt d nm (Some SFile) -> get (root st) (d ++ [nm]) = Some (NFile c) ->
+  exists st', f_open st h path fr fw fa fo = (st', true) /\
+              file_handle st' h (fr || negb fw) fw
+                {| b_data := opened_content fr fw fa fo c;
+                   b_pos := if fa then length (opened_content fr fw fa fo c) else O |} /\
+              root st' = (if fw && negb fr && negb fa && negb fo
+                          then upd (root st) (d ++ [nm]) (Some (NFile [])) else root st) /\
+              cwd st' = cwd st.
+Proof. exact open_existing_any. Qed.
+Print Assumptions open_existing_in_any_mode.
 
 (* the buffer itself: the bytes written are at the place they were written to ... *)
 Theorem written_bytes_are_read_back : forall data pos d,
@@ -403,6 +429,17 @@ Proof.
   eexists. vm_compute. repeat split; try reflexivity. discriminate.
 Qed.
 
+(* open h write-only with append: "xy" stays, the cursor is at 2; write "Z": true; readAll: refused *)
+Example ex_handle_write_only :
+  let st1 := fst (f_open demo 0 [104] false true true false) in
+  file_handle st1 0 false true {| b_data := [120;121]; b_pos := 2 |} /\
+  snd (h_run st1 0 [HWrite [90]; HSeek 0 0; HReadAll; HSize]) = [OBool true; OInt 0; OData false []; OInt 3] /\
+  snd (abuf_run false true {| b_data := [120;121]; b_pos := 2 |} [HWrite [90]; HSeek 0 0; HReadAll; HSize])
+  = [OBool true; OInt 0; OData false []; OInt 3].
+Proof.
+  split; [|split; vm_compute; reflexivity].
+  eexists. vm_compute. repeat split; try reflexivity. discriminate.
+Qed.
 (* rename of a missing source with failIfExists: false, and no placeholder stays *)
 Example ex_rename_fails : f_rename demo [109] [110] true = (demo, false).
 Proof. vm_compute. reflexivity. Qed.
